@@ -415,7 +415,7 @@ mutant('C18', 'controlled-by-not-set', 'frappy/mixins.py',
        "            out.controlled_by = self.name\n        self.set_control_active(True)",
        "        self.set_control_active(True)")
 mutant('C18', 'self-control-keeps-controllers', 'frappy/mixins.py',
-       "            self.controlled_by = 0  # self\n            for deactivate_control in self.inputCallbacks.values():\n                deactivate_control(self.name)",
+       "            for deactivate_control in self.inputCallbacks.values():\n                deactivate_control(self.name)\n            self.controlled_by = 0  # self",
        "            self.controlled_by = 0  # self")
 mutant('C18', 'limits-plain-tuple', 'frappy/params.py',
        "            self.datatype = LimitsType(datatype)", "            self.datatype = TupleOf(datatype, datatype)")
